@@ -855,3 +855,70 @@ def canonicalise_module(short, tree):
             if acts:
                 log.setdefault(n.name, []).extend(acts)
     return log
+
+
+# ------------------------------------------------------------------ how far is a function from its reference version?
+def _flat(func):
+    """pre-order list of statement keys: simple statements by their dump, compound statements by their header"""
+    out = []
+
+    def walk(stmts):
+        for s in stmts:
+            if isinstance(s, ast.Expr) and isinstance(s.value, ast.Constant):
+                continue
+            if isinstance(s, (ast.For, ast.While, ast.If, ast.With, ast.Try)):
+                c = copy.copy(s)
+                for f in ("body", "orelse", "finalbody", "handlers"):
+                    if hasattr(c, f):
+                        setattr(c, f, [])
+                out.append(ast.dump(c))
+                for f in ("body", "orelse", "finalbody"):
+                    walk(getattr(s, f, []) or [])
+                for h in getattr(s, "handlers", []) or []:
+                    out.append("except " + (ast.dump(h.type) if h.type is not None else ""))
+                    walk(h.body)
+            else:
+                out.append(ast.dump(s))
+    walk(func.body)
+    return out
+
+
+def edit_kind(cfunc, rfunc):
+    """'identical' | 'first-order' (only deletions, or exactly one replaced statement) | 'rewritten' ; with (deleted, inserted, replaced)"""
+    a, b = _flat(rfunc), _flat(cfunc)
+    if a == b and ast.dump(cfunc.args) == ast.dump(rfunc.args) and [ast.dump(d) for d in cfunc.decorator_list] == [ast.dump(d) for d in rfunc.decorator_list]:
+        return "identical", (0, 0, 0)
+    dele = ins = rep = 0
+    for tag, i1, i2, j1, j2 in difflib.SequenceMatcher(None, a, b, autojunk=False).get_opcodes():
+        if tag == "delete":
+            dele += i2 - i1
+        elif tag == "insert":
+            ins += j2 - j1
+        elif tag == "replace":
+            k = min(i2 - i1, j2 - j1)
+            rep += k
+            dele += (i2 - i1) - k
+            ins += (j2 - j1) - k
+    if ins == 0 and (rep == 0 or (rep == 1 and dele == 0)):
+        return "first-order", (dele, ins, rep)
+    return "rewritten", (dele, ins, rep)
+
+
+def rewritten_functions(repo, ref):
+    """qualified names of functions (and modules whose top level changed) that differ from the reference by more than a first-order edit"""
+    out = []
+    for short in sorted(repo.mods):
+        if short not in ref.mods:
+            out.append("%s (new module)" % short)
+            continue
+        ct, rt = repo.mods[short].tree, ref.mods[short].tree
+        cf = {n.name: n for n in ct.body if isinstance(n, ast.FunctionDef)}
+        rf = {n.name: n for n in rt.body if isinstance(n, ast.FunctionDef)}
+        for name in sorted(cf):
+            if name not in rf:
+                out.append("%s.%s (new function)" % (short, name))
+                continue
+            k, (d, i, r) = edit_kind(cf[name], rf[name])
+            if k == "rewritten":
+                out.append("%s.%s (-%d +%d ~%d statements)" % (short, name, d, i, r))
+    return out
